@@ -12,6 +12,7 @@
 (declare-fun msg_nonce (Iface) (_ BitVec 64))
 (declare-fun msg_checknonce (Iface) Bool)
 (declare-fun msg_from (Iface) (Array (_ BitVec 64) (_ BitVec 8)))
+(declare-fun msg_to (Iface) Int)
 ; observers of a block object (pure functions of the block reference; Hash/ParentHash/NumberU64
 ; are cached or immutable fields of an immutable block)
 (declare-fun blockhash (Int) (Array (_ BitVec 64) (_ BitVec 8)))
